@@ -74,7 +74,7 @@ structure NthYArgs (a : Args) : Prop where
   valid : a.dtstart.Valid
   byweekno : a.byweekno = none
   byeaster : a.byeaster = none
-  bymonthday : a.bymonthday = none
+  monthday_nz : ∀ x ∈ a.bymonthday.getD [], x ≠ 0
   bymonth : a.bymonth = none
   weekdays : ∃ l, a.byweekday = some l ∧ l ≠ [] ∧ ∀ w ∈ l, (0 ≤ w.1 ∧ w.1 ≤ 6) ∧ w.2 ≠ 0
 
@@ -120,10 +120,7 @@ theorem nthy_rule (na : NthYArgs a) (h : construct a = .ok r) : ∃ bh bm bs, r 
   obtain ⟨_, _, _, hwd, hnwd⟩ := nthy_nwl na
   refine ⟨bh, bm, bs, ?_⟩
   have hbm : bymonthOf a = a.bymonth.map sortedSet := by unfold bymonthOf; simp [nthy_noDay na]
-  have hmd : monthdayArg a = none := by unfold monthdayArg; simp [nthy_noDay na, na.bymonthday]
-  have hbmd : bymonthdayOf a = [] := by unfold bymonthdayOf; rw [hmd]
-  have hbnd : bynmonthdayOf a = [] := by unfold bynmonthdayOf; rw [hmd]
-  simp [nthRuleOf, hbm, hbmd, hbnd, hwd, hnwd, na.byweekno, na.byeaster]
+  simp [nthRuleOf, hbm, hwd, hnwd, na.byweekno, na.byeaster]
 
 /-- **bridge**: inside the year `y`, calendar predicate ∧ "marked by an nth-weekday pair" is `dateOk` -/
 theorem nthy_bridge (na : NthYArgs a) (h : construct a = .ok r) (info : Info) (y j : Int)
@@ -138,6 +135,14 @@ theorem nthy_bridge (na : NthYArgs a) (h : construct a = .ok r) (info : Info) (y
   rw [hl, Option.getD_some] at hmem
   have hfo := date_of_yday y j hy hj0 hj1
   rw [← hyo] at hfo
+  have hpos : 1 ≤ info.yearordinal + j := by
+    rw [hyo]
+    have := toOrdinal_pos y 1 1 hy ⟨by omega, by omega, by omega, by have := daysInMonth_bounds y 1; omega⟩
+    omega
+  obtain ⟨_, hvd, _⟩ := toOrdinal_fromOrdinal (info.yearordinal + j) hpos
+  rw [hfo] at hvd
+  obtain ⟨_, _, hd1, hd2⟩ := hvd
+  dsimp only at hd1 hd2
   rw [hr]
   unfold simpleOk Spec.RRule.dateOk
   rw [hfo]
@@ -145,11 +150,16 @@ theorem nthy_bridge (na : NthYArgs a) (h : construct a = .ok r) (info : Info) (y
   have hnd : Spec.RRule.noDayParts a = noDayParts a := rfl
   have hmonths : Spec.RRule.months a = [] := by
     unfold Spec.RRule.months; rw [na.bymonth]; simp [hnd, nthy_noDay na]
-  have hmd : Spec.RRule.monthdays a = [] := by
-    unfold Spec.RRule.monthdays; simp [hnd, nthy_noDay na, na.bymonthday]
+  have hmda : monthdayArg a = a.bymonthday := by unfold monthdayArg; simp [nthy_noDay na]
+  have hmd : Spec.RRule.monthdays a = a.bymonthday.getD [] := by
+    unfold Spec.RRule.monthdays; simp [hnd, nthy_noDay na]
+  have hmc := monthday_clause_core a (by rw [hmda]; exact na.monthday_nz)
+    (monthDayOfYday (isLeap y) j).2
+    ((monthDayOfYday (isLeap y) j).2 - daysInMonth y (monthOfYday (isLeap y) j) - 1) (by omega) (by omega)
+  rw [hmda] at hmc
   have hwds : Spec.RRule.weekdays a = l := by
     unfold Spec.RRule.weekdays; simp [hnd, nthy_noDay na, hl]
-  rw [hmonths, hmd, hwds, na.byweekno, na.byeaster, na.bymonth]
+  rw [hmonths, hmd, hwds, na.byweekno, na.byeaster, na.bymonth, hmc]
   have htn : truthy (none : Option (List Int)) = false := rfl
   have hmn : ∀ w, memO w (none : Option (List Int)) = false := fun _ => rfl
   simp only [Option.map_none, htn, hmn, List.isEmpty_nil, Bool.not_true, Bool.or_false, Bool.not_false,
@@ -209,9 +219,10 @@ theorem nthy_bridge (na : NthYArgs a) (h : construct a = .ok r) (info : Info) (y
       exact ⟨wn, (hmem wn).mpr hwl, (hcore wn (hok wn hwl).2).mpr hm⟩
   rw [hwk]
   generalize (l.isEmpty || _) = b2
+  generalize ((a.bymonthday.getD []).isEmpty || _ || _) = b4
   rcases a.byyearday with _ | (_ | ⟨x, xs⟩)
-  · cases b2 <;> rfl
-  · cases b2 <;> rfl
+  · cases b2 <;> cases b4 <;> rfl
+  · cases b2 <;> cases b4 <;> rfl
   · rw [yearday_clause (some (x :: xs))]
 
 theorem nthy_cuts (na : NthYArgs a) (h : construct a = .ok r) : CutsAgree a r := by
